@@ -628,7 +628,12 @@ impl<'tcx> Cx<'tcx> {
                                 out.push(',');
                             }
                             firstf = false;
-                            let fty = tcx.type_of(f.did).instantiate_identity().skip_norm_wip();
+                            let fty0 = tcx.type_of(f.did).instantiate_identity().skip_norm_wip();
+                            // evaluate array-length constants etc. where possible
+                            let fty = match tcx.try_normalize_erasing_regions(TypingEnv::post_analysis(tcx, d), rustc_middle::ty::Unnormalized::new_wip(fty0)) {
+                                Ok(t) => t,
+                                Err(_) => fty0,
+                            };
                             let _ = write!(
                                 out,
                                 "{{\"name\":{},\"ty\":{},\"vis\":{},\"attrs\":{}}}",
@@ -702,6 +707,7 @@ impl<'tcx> Cx<'tcx> {
                     if let Some(e) = self.expn(tcx.def_span(d)) {
                         let _ = write!(out, ",\"exp\":{}", js(&e));
                     }
+                    let _ = write!(out, ",\"exported\":{}", tcx.effective_visibilities(()).is_reachable(ld));
                     {
                         // generic parameter names in substitution order (parents first)
                         let mut names: Vec<String> = Vec::new();
